@@ -91,6 +91,41 @@ def constructions(key, data, rs):
     return out
 
 
+def cut_and_graft_variants(key, data, tree0):
+    """The same tree the way the subtree particle-Gibbs move builds it: cut a clone's subtree out of a copy (the
+    remaining clones keep their labels, with gaps) and graft a freshly built subtree of the same shape, whose clones are
+    numbered from 0 again, where the old one hung."""
+    out = []
+    f, o = key
+    if len(f) < 2:
+        return out
+    _, conc = absstate.project(tree0, full=False)
+    name_of = {conc["clade"][m]: m for m in conc["names"]}
+    for v in sorted(f, key=sorted):
+        inside = frozenset(c for c in f if c <= v)
+        if len(inside) == len(f):
+            continue
+        host = tree0.copy()
+        sub = host.get_subtree(name_of[v])
+        parent = host.get_parent(name_of[v])
+        host.remove_subtree(sub)
+        fresh = absstate.build((inside, frozenset()), data)
+        host.add_subtree(fresh, parent=parent)
+        host.update()
+        out.append(("cut_and_graft_%s" % "".join(map(str, sorted(v))), host, key))
+        if len(inside) >= 3:
+            # the resampled block comes back smaller: one clone holding all the data of the cut subtree
+            host2 = tree0.copy()
+            sub2 = host2.get_subtree(name_of[v])
+            host2.remove_subtree(sub2)
+            small = absstate.build((frozenset([v]), frozenset()), data)
+            host2.add_subtree(small, parent=parent)
+            host2.update()
+            key2 = (frozenset(c for c in f if not c < v), o)
+            out.append(("cut_%s_graft_one_clone" % "".join(map(str, sorted(v))), host2, key2))
+    return out
+
+
 def light_pass(ck, n):
     """One more data point with a single setting (alpha 2.5, outlier prior 0.2, unit cluster sizes), two constructions per forest:
     covers shapes the full pass does not reach (e.g. two top-level clones beside a clone with two children)."""
@@ -115,7 +150,18 @@ def light_pass(ck, n):
             continue
         exp_p = expected(feats[key], 2.5, 0.2, sizes_of, oracle[key]["Z"] if key[0] else None, outl_marg, G, D, "marg")
         exp_1 = expected(feats[key], 2.5, 0.2, sizes_of, oracle[key]["Z"] if key[0] else None, outl_marg, G, D, "one")
-        for vname, tree in c02.build_variants(key, data)[:2]:
+        variants = [(a, b, key) for a, b in c02.build_variants(key, data)[:2]]
+        variants += cut_and_graft_variants(key, data, variants[0][1])
+        for vname, tree, vkey in variants:
+            exp_p = expected(feats[vkey], 2.5, 0.2, sizes_of, oracle[vkey]["Z"] if vkey[0] else None, outl_marg, G, D, "marg")
+            exp_1 = expected(feats[vkey], 2.5, 0.2, sizes_of, oracle[vkey]["Z"] if vkey[0] else None, outl_marg, G, D, "one")
+            try:
+                if absstate.project(tree, full=True)[0] != vkey:
+                    ck.violation("C03|light_pass|construction", "the tree built %s does not hold the clades and outliers of %s" % (vname, absstate.key_str(vkey)), {"state": absstate.to_json(key), "variant": vname})
+                    continue
+            except absstate.Inconsistent as ex:
+                ck.violation("C03|light_pass|construction", "the tree built %s for %s is inconsistent: %s" % (vname, absstate.key_str(key), ex), {"state": absstate.to_json(key), "variant": vname})
+                continue
             both = dist.compute_both_log_p_and_log_p_one(tree)
             th = TreeHolder(tree, dist, None)
             ck.evaluations += 3
@@ -137,10 +183,7 @@ def run(corrupt=None):
     thorough = ck.tier == "thorough"
     n = 4 if thorough else 3
     G, D = 4, 2
-    if thorough:
-        light_pass(ck, 5)
-    else:
-        light_pass(ck, 4)
+    light_pass(ck, 5)
     cfg = tlc.cfg_text(constants={"N": n, "OutliersOn": "TRUE", "Dump": "TRUE"}, invariants=["FeatConsistent", "Emit"])
     r = tlc.run_tlc("c03_density", "Density", cfg, timeout=1500)
     tlc.require_ok(r, "Density")
@@ -157,19 +200,26 @@ def run(corrupt=None):
     complete = [k for k in sorted(feats, key=absstate.key_str) if absstate.data_ids(k) == set(range(n))]
     partial = [k for k in sorted(feats, key=absstate.key_str) if absstate.data_ids(k) and k not in complete]
     worst = 0.0
-    for p_out, size_mode in ((0.0, 1), (0.2, 1), (1e-4, 3), (0.9, 1)):
+    for p_out, size_mode, offs in ((0.0, 1, None), (0.2, 1, None), (1e-4, 3, None), (0.9, 1, None), (0.2, 1, [0.0, -900.0])):
         sizes_of = {d: (1 if size_mode == 1 else (3 if d % 2 == 0 else 1)) for d in range(n)}
         data = gridoracle.data_from_tables(tab, outlier_prob=p_out, sizes=[sizes_of[d] for d in range(n)])
-        for key in complete + (partial if (thorough or p_out == 0.2) else []):
+        if offs is not None:
+            # samples on very different scales (the second sample's likelihoods are 900 nats lower): every data point
+            # in the tree - placed or outlier - shifts both densities by the sum of the offsets
+            from phyclone.data.base import DataPoint
+            data = [DataPoint(dp.idx, np.ascontiguousarray(dp.value + np.array(offs)[:, None]), name=dp.name, outlier_prob=dp.outlier_prob, outlier_prob_not=dp.outlier_prob_not)
+                    for dp in data]
+        for key in complete + (partial if (thorough or (p_out == 0.2 and offs is None)) else []):
             if key[1] and p_out == 0.0:
                 continue  # without outlier modelling no run holds outliers
             feat = feats[key]
             cons = constructions(key, data, rs)
             zrow = oracle[key]["Z"] if key[0] else None
             c02.clear_caches()
-            for ai, alpha in enumerate(alphas):
-                exp_p = expected(feat, alpha, p_out, sizes_of, zrow, outl_marg, G, D, "marg")
-                exp_1 = expected(feat, alpha, p_out, sizes_of, zrow, outl_marg, G, D, "one")
+            shift = 0.0 if offs is None else sum(offs) * len(absstate.data_ids(key))
+            for ai, alpha in enumerate(alphas if offs is None else alphas[2:4]):
+                exp_p = expected(feat, alpha, p_out, sizes_of, zrow, outl_marg, G, D, "marg") + shift
+                exp_1 = expected(feat, alpha, p_out, sizes_of, zrow, outl_marg, G, D, "one") + shift
                 if corrupt == "formula" and feat["K"] >= 2:
                     exp_1 += 1e-6
                 fresh = TreeJointDistribution(FSCRPDistribution(alpha))
@@ -192,7 +242,7 @@ def run(corrupt=None):
                                     nm, g, e, dev, absstate.key_str(key), vname, alpha, p_out, dname), rep)
             # two trees restored from ONE dictionary snapshot (as particles hand them out); editing one must leave the
             # other's densities equal to the model value of its own (unchanged) state
-            if p_out == 0.2 and len(cons) > 0 and absstate.data_ids(key) == set(range(n)):
+            if p_out == 0.2 and offs is None and len(cons) > 0 and absstate.data_ids(key) == set(range(n)):
                 from phyclone.tree import Tree
                 snap = cons[0][1].to_dict()
                 ta, tb = Tree.from_dict(snap), Tree.from_dict(snap)
@@ -230,7 +280,7 @@ def run(corrupt=None):
                                  {"state": absstate.to_json(key)})
             ck.traces_validated += 1
             if len(key[0]) > 1 or key[1]:
-                ck.nontrivial("%s|%s|%s" % (absstate.key_str(key), p_out, size_mode))
+                ck.nontrivial("%s|%s|%s|%s" % (absstate.key_str(key), p_out, size_mode, offs is not None))
     # identity across different abstract states (sampled pairs)
     data = gridoracle.data_from_tables(tab, outlier_prob=0.2)
     reps = [(k, absstate.build(k, data)) for k in complete]
